@@ -99,3 +99,15 @@ Definition eobs_eqb (a b : eobs) : bool :=
   zlist_eqb (zsort lu) (zsort lu') && excl_eqb (xsort lx) (xsort lx').
 
 Definition check_e2e (co : ecase * eobs) : bool := eobs_eqb (run_e2e (fst co)) (snd co).
+
+(* ---------- the premise of the binary64 order-independence theorems
+   (Belief/FloatOrder.v), checked on every generated case: every confidence that
+   reaches `aggregate` is neither NaN nor -0.0 ---------- *)
+From Verif Require Import Belief.FloatOrder.
+
+Definition pure_good (co : pcase * pobs) : bool :=
+  let '(cs, _, _) := fst co in forallb (fun c => fgood (c_conf (mk_cand c))) cs.
+
+Definition e2e_good (co : ecase * eobs) : bool :=
+  let '(own, rivals, (_, _, _, unstated, _, _)) := fst co in
+  forallb (fun r => let r := mk_row r in fgood (if r_conf_neg r then unstated else r_conf r)) (own ++ rivals).
